@@ -220,6 +220,13 @@ finding("C16-errexit-in-handler-function", "C16", "under errexit a function call
 finding("C16-errexit-in-handler-function2", "C16", "same, failure inside a function", all=["handler:calls-func", "path:errexit-in-func"])
 finding("C16-return-top", "C16", "`return` at top level of a script", all=["path:return-top"])
 finding("C16-errexit-special", "C16", "ERR/EXIT special scripts (handler failing under errexit, errtrace in functions)", all=["special:exit-handler-with-errexit"])
+finding("C16-err-handler-subshell-crash", "C16", "`set -E; trap 'echo E; (exit 2)' ERR; false`: the subshell started by the ERR handler starts with a clean 'handler active' set and fires ERR for its own `exit 2`, whose handler starts another subshell …: unbounded recursion, the shell dies of stack exhaustion (bash prints E once)",
+        all=["has:ERR", "body:ERR=subshell-fails"], oracle="no-crash", why="consequence of C16-err-fires-per-level (ERR fired for `exit n`), which is pinned; Shell::clone clears the active-handler set on purpose")
+finding("C16-err-fires-per-level", "C16", "the ERR trap fires once per enclosing command level instead of once per failing command: again after a loop whose last command failed, for `exit n` / `return n` themselves, in the subshell and again in the parent for `(exit 3)` under errtrace, and at the call site while errexit is already leaving a function",
+        all=["has:ERR"], oracle="bash", why=PINNED + " (errtrace.yaml 'errtrace with errexit in function'): the repair (no ERR for results that carry exit/return control flow) was written, validated by this check, and withdrawn because it makes that known_failure case pass")
+finding("C16-errexit-inside-exit-handler", "C16", "under errexit a failing command inside the EXIT handler does not end the handler with that status (bash: the process status becomes the failing command's)",
+        all=["opts:errexit", "has:EXIT"], oracle="bash", why="same mechanism as C16-errexit-in-handler-function: errexit is not applied to commands run by on_exit")
+finding("C16-errexit-inside-exit-handler2", "C16", "same with errtrace", all=["opts:errexit+errtrace", "has:EXIT"], oracle="bash")
 finding("C16-err-errtrace-special", "C16", "ERR trap in functions with errtrace fires twice", all=["special:err-in-function-errtrace"])
 
 # ---------------------------------------------------------------------------------------------- C18
